@@ -81,6 +81,8 @@ def _worker(task):
     opts = dict(prop.engine_opts)
     opts.update(cfg.get('_engine', {}))
     eng = symex.Engine(seed=seed, **opts)
+    if tier == 'thorough':
+        eng.rung_ms = 30000   # more patient portfolio: fewer load-dependent 'unknown's
     t0 = time.time()
     first = [True]
 
